@@ -177,7 +177,8 @@ impl G {
                 let v1 = self.v();
                 let v2 = self.v();
                 let v3 = self.v();
-                format!("let {l} = [{v1}, {v2}]; {l}.push({v3}); let {l}c = {l}; {l}.swap(0, 1); let {l}g = {l}.get(1);")
+                let v4 = self.v();
+                format!("let {l} = [{v1}, {v2}]; {l}.push({v3}); {l}.push(mk(7)); let {l}c = {l}; {l}.swap(0, 1); let {l}g = {l}.get(1); let {l}h = {l}.get(9); let {l}i = {l}.contains(mk(7)); let {l}j = {l}.contains(mk(8)); let {l}k = {l}.index(mk(7)); let {l}m = {l}.index(mk(8)); let {l}n = {l}.index({v4}); let {l}e: List[Tr] = []; let {l}o = {l}e.index(mk(7)); let {l}p = {l}e.contains(mk(7)); let {l}q = {l} + {l}e; let {l}r = {l}.concat([mk(6)]);")
             }
             St::Strings => {
                 let s = self.fresh("s");
